@@ -563,4 +563,119 @@ theorem zero_phase_supports_straddle :
   · obtain ⟨K, _, _, _, h1, h2, _⟩ := fbank_supports_straddle l m r hl hr; exact ⟨h1, h2⟩
   · obtain ⟨K, _, h1, h2⟩ := gabor_supports_straddle l2 std hs hr; exact ⟨K, h1, h2⟩
 
+/-! ## non-vacuity of the support theorems on concrete filters -/
+
+/-- order 4, `α = 1/10`, `c = α⁴/3!`, `max_centered`: the search returns, so `gammatone_support_tail`
+and `max_centered_support_shift` speak about an actual support `(a, b)`. -/
+example : ∃ a b : ℤ, gtSupport false (newtonFuel ((1/10:ℝ)^4/6) (1/10) 4) ((1/10:ℝ)^4/6) (1/10) 4
+    (gt_offset true 4 (1/10)) = some (a, b) ∧ a = -30 := by
+  obtain ⟨r, hr, _⟩ := newton_terminates (c := (1/10:ℝ)^4/6) (α := 1/10) (n := 4)
+    (by norm_num) (by norm_num) (by norm_num) (gt_offset true 4 (1/10))
+  have h := gammatone_support_tail (c := (1/10:ℝ)^4/6) (α := 1/10) (n := 4)
+    (offset := gt_offset true 4 (1/10)) (by norm_num) (by norm_num) (by norm_num)
+    (by simp only [gt_offset, if_true]; norm_num) (newtonFuel ((1/10:ℝ)^4/6) (1/10) 4)
+  simp only [gtSupport, Bool.false_eq_true, if_false, hr, Option.map_some] at h ⊢
+  refine ⟨_, _, rfl, ?_⟩
+  have := (h _ _ rfl).1
+  rw [this]
+  simp only [gt_offset, if_true]
+  norm_num
+
+example : ∃ K : ℤ, 0 < K ∧ gaborSupport false (10:ℝ) = some (-K, K) := by
+  have hr : 0 < gabor_rad false (10:ℝ) := by
+    simp only [gabor_rad, gabor_t_support_const, threshold, transc_log, transc_pi, Bool.false_eq_true, if_false]
+    have hpi := Real.pi_pos
+    have h : Real.log ((0.0005:ℝ) ^ 2 * (2 * Real.pi) * 10 ^ 2) < 0 :=
+      Real.log_neg (by positivity) (by nlinarith [Real.pi_le_four])
+    rw [Real.log_mul (by positivity) (by positivity), Real.log_mul (by positivity) (by positivity),
+      Real.log_pow, Real.log_pow, Real.log_mul (by norm_num) hpi.ne'] at h
+    norm_num at h ⊢
+    linarith
+  obtain ⟨K, _, h1, h2⟩ := gabor_supports_straddle false 10 (by norm_num) hr
+  exact ⟨K, h1, h2⟩
+
+example : (fbankSupport (1:ℝ) 2 3).1 < 0 ∧ 0 < (fbankSupport (1:ℝ) 2 3).2 :=
+  zero_phase_supports_straddle.2.1 1 2 3 (by norm_num) (by norm_num)
+
+/-! ## triangular bank: the envelope bound quoted in the source, against `supports` -/
+
+theorem tri_K_sq {l m r : ℝ} (hl : l < m) (hr : m < r) :
+    (tri_K l m r) ^ 2 = 8 * (r - l) / Real.pi / threshold / ((m - l) * (r - m)) := by
+  have h1 : 0 < m - l := by linarith
+  have h2 : 0 < r - m := by linarith
+  have hp := Real.pi_pos
+  have ht := threshold_pos
+  simp only [tri_K, transc_sqrt, transc_pi]
+  rw [show (8.0:ℝ) = 8 by norm_num]
+  have e : ∀ a b c d : ℝ, (a / b / (c * d)) ^ 2 = a ^ 2 / b ^ 2 / (c ^ 2 * d ^ 2) := by
+    intro a b c d; ring
+  rw [e, Real.sq_sqrt, Real.sq_sqrt ht.le, Real.sq_sqrt h1.le, Real.sq_sqrt h2.le]
+  have : 0 < r - l := by linarith
+  positivity
+
+/-- real triangular bank: one image `val(t)/denom` of the closed-form impulse response is bounded by
+`2(w_r-w_l)/((w_c-w_l)(w_r-w_c)·t²·π)` (the bound in the source comment), which is at most the threshold
+as soon as `|t| ≥ K/2` (`K` the real number under `int(np.ceil(.))`) — in particular at every sample
+outside `supports = (-⌈K/2⌉-1, ⌊K/2⌋+1)`. -/
+theorem tri_time_tail {l m r : ℝ} (hl : l < m) (hr : m < r) (t : ℝ) (ht : tri_K l m r / 2 ≤ |t|) :
+    |tri_ir_val l m r (tri_ir_div_term l m r) t / tri_ir_denom false l m r| ≤ threshold := by
+  have h1 : 0 < m - l := by linarith
+  have h2 : 0 < r - m := by linarith
+  have h3 : 0 < r - l := by linarith
+  have hp := Real.pi_pos
+  have hth := threshold_pos
+  have hKpos : 0 < tri_K l m r := by
+    have := tri_K_sq hl hr
+    have hpos : 0 < (tri_K l m r) ^ 2 := by rw [this]; positivity
+    exact lt_of_le_of_ne (tri_K_nonneg l m r) (fun h => by rw [← h] at hpos; simp at hpos)
+  have htpos : 0 < |t| := by linarith
+  have ht2 : (tri_K l m r) ^ 2 / 4 ≤ t ^ 2 := by
+    have := pow_le_pow_left₀ (by positivity) ht 2
+    rw [sq_abs] at this; linarith [this, show (tri_K l m r / 2) ^ 2 = (tri_K l m r) ^ 2 / 4 by ring]
+  rw [tri_K_sq hl hr] at ht2
+  have ht0 : 0 < t ^ 2 := by rw [← sq_abs]; positivity
+  -- closed form of the quotient
+  have key : tri_ir_val l m r (tri_ir_div_term l m r) t / tri_ir_denom false l m r =
+      ((r - l) * Real.cos (m * t) - (r - m) * Real.cos (l * t) - (m - l) * Real.cos (r * t)) /
+        ((m - l) * (r - m) * Real.pi * t ^ 2) := by
+    have htt : t ≠ 0 := by intro h; rw [h] at ht0; simp at ht0
+    simp only [tri_ir_val, tri_ir_div_term, tri_ir_denom, transc_cos, transc_pi, Bool.false_eq_true, if_false]
+    rw [show ((0.0:ℝ) + 1.0) = 1 by norm_num, one_mul]
+    split <;> field_simp
+  rw [key, abs_div, abs_of_pos (by positivity : 0 < (m - l) * (r - m) * Real.pi * t ^ 2),
+    div_le_iff₀ (by positivity)]
+  have hN : |(r - l) * Real.cos (m * t) - (r - m) * Real.cos (l * t) - (m - l) * Real.cos (r * t)|
+      ≤ 2 * (r - l) := by
+    have c1 := Real.abs_cos_le_one (m * t)
+    have c2 := Real.abs_cos_le_one (l * t)
+    have c3 := Real.abs_cos_le_one (r * t)
+    rw [abs_le] at c1 c2 c3 ⊢
+    constructor <;> nlinarith [c1.1, c1.2, c2.1, c2.2, c3.1, c3.2]
+  refine hN.trans ?_
+  -- 2(r-l) ≤ ε (m-l)(r-m) π t²   from   2(r-l)/(π ε (m-l)(r-m)) ≤ t²
+  have hAB : 0 < (m - l) * (r - m) := mul_pos h1 h2
+  have e : 8 * (r - l) / Real.pi / threshold / ((m - l) * (r - m)) / 4 =
+      2 * (r - l) / (Real.pi * threshold * ((m - l) * (r - m))) := by
+    field_simp; ring
+  rw [e, div_le_iff₀ (by positivity)] at ht2
+  nlinarith
+
+/-- samples outside `supports` satisfy the hypothesis of `tri_time_tail` -/
+theorem tri_outside_support_far (l m r : ℝ) (t : ℤ)
+    (ht : t < (triSupport l m r).1 ∨ (triSupport l m r).2 < t) : tri_K l m r / 2 ≤ |(t : ℝ)| := by
+  obtain ⟨K, hK, hK0, hs, _, _, _⟩ := tri_supports_straddle l m r
+  rw [hs] at ht
+  have hle : tri_K l m r ≤ (K : ℝ) := by rw [hK]; exact Int.le_ceil _
+  have : (K : ℝ) / 2 ≤ |(t : ℝ)| := by
+    rcases ht with h | h
+    · have h' : K ≤ 2 * (-t) := by simp only at h; omega
+      have : (K : ℝ) ≤ 2 * (-(t : ℝ)) := by exact_mod_cast h'
+      have := neg_le_abs (t : ℝ); linarith
+    · have h' : K ≤ 2 * t := by simp only at h; omega
+      have : (K : ℝ) ≤ 2 * (t : ℝ) := by exact_mod_cast h'
+      have := le_abs_self (t : ℝ); linarith
+  linarith
+
+example : (1:ℝ) < 2 ∧ (2:ℝ) < 3 := by norm_num
+
 end PdsVerif.C07
